@@ -218,7 +218,8 @@ def check_point(spec, text, conds, order, pens, kind, x, res, stats, inp, cross)
         stats['skipped_nonfinite'] = stats.get('skipped_nonfinite', 0) + 1
         return
     allsat = all(o[2] for o in orc)
-    res.case('%s|%s|%s|%s' % (spec['tag'], kind, allsat, cross), not allsat or bool(cross), None)
+    res.case('%s|%s|%s|%s' % (spec['tag'], kind, allsat, cross), not allsat or bool(cross),
+             {'text': text, 'x': jsonable(x), 'point_kind': kind, 'all_lines_satisfied': allsat})
     if any(o[1] == 0 and not isinstance(o[1], bool) for o in orc):
         stats['exact_boundary_points'] = stats.get('exact_boundary_points', 0) + 1
     for ln, f, (k, val, sat, truth, scale) in zip(spec['lines'], conds, orc):
